@@ -127,7 +127,7 @@ impl<'a> Printer<'a> {
                 }
             }
             Some(r) => {
-                let k = r.below(12);
+                let k = r.below(14);
                 let s = match k {
                     0 => "  ",
                     1 => "\n",
@@ -136,9 +136,13 @@ impl<'a> Printer<'a> {
                     4 => " // c\n",
                     5 => "\r\n",
                     6 => " /* a\n b */\n",
+                    // comments with 2-, 3- and 4-byte characters and a no-break space: byte, character and UTF-16 distances
+                    // differ behind them
+                    7 => " /* é😉 */ ",
+                    8 => " /* €\u{a0}x */",
                     _ => " ",
                 };
-                if self.at_line_start && k >= 7 {
+                if self.at_line_start && k >= 9 {
                     // nothing needed
                 } else {
                     self.out.push_str(s);
